@@ -74,6 +74,16 @@ def esStep (fs : List Filter) (cap : Nat) (s : ES) : Act → ES
 
 def esRun (fs : List Filter) (cap : Nat) (sched : List Act) : ES := sched.foldl (esStep fs cap) {}
 
+/-- `HandleEvent` on a stream whose `Stop()` already ran (`close(es.eventCh)`): the agent's
+`eventLoop` snapshots the handler list before `DeregisterEventHandler` takes effect, so this
+order is reachable.  A send on a closed channel panics, also inside a `select` with `default`. -/
+inductive HOut
+  | ok | panic
+  deriving DecidableEq, Repr, Inhabited
+
+def handleEventOn (fs : List Filter) (stopped : Bool) (e : Ev) : HOut :=
+  if wanted fs e then (if stopped then .panic else .ok) else .ok
+
 def arrivals : List Act → List Ev
   | [] => []
   | .arrive e :: r => e :: arrivals r
